@@ -2,46 +2,15 @@ package main
 
 import (
 	"fmt"
-	"io/ioutil"
-	"os"
-	"path/filepath"
 	"time"
 
 	cs "github.com/lianxiangcloud/linkchain/consensus"
-	cstypes "github.com/lianxiangcloud/linkchain/consensus/types"
+	"github.com/lianxiangcloud/linkchain/libs/ser"
 )
 
 func main() {
-	dir, _ := ioutil.TempDir("", "c14p")
-	defer os.RemoveAll(dir)
-	p := filepath.Join(dir, "wal")
-	w, err := cs.NewWAL(p)
-	if err != nil {
-		panic(err)
-	}
-	if err := w.Start(); err != nil {
-		panic(err)
-	}
-	w.Write(cs.VerifWALTimeout(cs.VerifTimeout{Duration: time.Second, Height: 1, Round: 0, Step: cstypes.RoundStepPropose}))
-	w.WriteSync(cs.EndHeightMessage{1})
-	w.Write(cs.VerifWALTimeout(cs.VerifTimeout{Duration: time.Second, Height: 2, Round: 0, Step: cstypes.RoundStepPropose}))
-	w.Stop()
-	b, _ := ioutil.ReadFile(p)
-	fmt.Println("len", len(b))
-	// records: 36, 47, 36, 47
-	for _, cut := range []int{len(b), len(b) - 1, len(b) - 40, len(b) - 43, len(b) - 44, len(b) - 46, len(b) - 47} {
-		d2 := filepath.Join(dir, fmt.Sprint("c", cut))
-		os.MkdirAll(d2, 0700)
-		ioutil.WriteFile(filepath.Join(d2, "wal"), b[:cut], 0600)
-		w2, _ := cs.NewWAL(filepath.Join(d2, "wal"))
-		for _, ign := range []bool{false, true} {
-			for h := uint64(0); h < 3; h++ {
-				gr, found, err := w2.SearchForEndHeight(h, &cs.WALSearchOptions{IgnoreDataCorruptionErrors: ign})
-				fmt.Println("cut", cut, "search", h, ign, found, err)
-				if gr != nil {
-					gr.Close()
-				}
-			}
-		}
+	for _, ns := range []int64{0, 1, 127, 128, 255, 256, 65535, 65536, 1 << 23, 1<<24 - 1, 1 << 24, 100000000, 500000000, 536870911, 536870912, 999999999} {
+		b := ser.MustEncodeToBytes(&cs.TimedWALMessage{Time: time.Unix(1790000000, ns), Msg: cs.EndHeightMessage{0}})
+		fmt.Println(ns, len(b))
 	}
 }
